@@ -247,6 +247,8 @@ def check_laws(rows):
                 fails.append({"law": which + " roundtrip", "t": t, "text": ft, "parsed": ptime.get(ft)})
             if from_parser:
                 cnt["time_accepted"] = cnt.get("time_accepted", 0) + 1
+                if off % 60 != 0:
+                    fails.append({"law": "time.Parse returned a zone offset with seconds", "t": t})
         for b, ff in tb.get("ffloat", []):
             bi = int(b)
             nan = (bi >> 52) & 0x7FF == 0x7FF and (bi & ((1 << 52) - 1)) != 0
